@@ -144,3 +144,42 @@ def prob_exp_mismatch(pr, lp, rtol=3e-5, atol=1e-7):
     exc = np.where(big, np.where(np.isfinite(pr), np.inf, -1.0), exc)
     i = int(np.argmax(exc))
     return float(exc[i]), i
+
+
+def squashed_atoms(samples, loc, sc, lo, hi, alpha=ALPHA, ulps=4.0):
+    """Point masses in samples of lo + (hi-lo)*sigmoid(Normal(loc, sc)) computed in float32.
+
+    For every value that occurs at least 4 times, the probability that a draw lands within `ulps` float32
+    steps (at the scale the arithmetic runs at: max(|lo|, |hi|, |v|), and of the pre-image at its own scale) of
+    that value is computed from the Gaussian CDF in float64; the observed count is judged by the exact
+    binomial tail with a Bonferroni factor. Saturation at the bounds is part of the cell of the bound value
+    and therefore legitimate. Returns (worst, n_values_judged): worst = None or a dict describing the atom."""
+    from scipy.stats import binom, norm
+
+    x = np.asarray(samples, np.float64).ravel()
+    n = len(x)
+    vals, counts = np.unique(x, return_counts=True)
+    sel = counts >= 4
+    vals, counts = vals[sel], counts[sel]
+    if not len(vals):
+        return None, 0
+    loc, sc, lo, hi = float(loc), float(sc), float(lo), float(hi)
+    w = hi - lo
+    dy = ulps * EPS32 * np.maximum(np.maximum(abs(lo), abs(hi)), np.abs(vals))
+    ua, ub = (vals - dy - lo) / w, (vals + dy - lo) / w
+    with np.errstate(divide="ignore", invalid="ignore"):
+        xa = np.where(ua <= 0, -np.inf, np.where(ua >= 1, np.inf, np.log(np.clip(ua, 1e-300, 1)) - np.log1p(-np.clip(ua, 0, 1 - 1e-17))))
+        xb = np.where(ub >= 1, np.inf, np.where(ub <= 0, -np.inf, np.log(np.clip(ub, 1e-300, 1)) - np.log1p(-np.clip(ub, 0, 1 - 1e-17))))
+        # the pre-image itself is a float32 number loc + sc*z
+        xa = np.where(np.isfinite(xa), xa - ulps * EPS32 * (abs(loc) + np.abs(xa) + 1.0), xa)
+        xb = np.where(np.isfinite(xb), xb + ulps * EPS32 * (abs(loc) + np.abs(xb) + 1.0), xb)
+        za, zb = (xa - loc) / sc, (xb - loc) / sc
+        pcell = np.where(za < 0, norm.cdf(zb) - norm.cdf(za), norm.sf(za) - norm.sf(zb))
+    pcell = np.clip(np.nan_to_num(pcell, nan=1.0), 0.0, 1.0)
+    pv = binom.sf(counts - 1, n, pcell)
+    j = int(np.argmin(pv))
+    worst = None
+    if pv[j] * len(vals) < alpha:
+        worst = {"value": float(vals[j]), "count": int(counts[j]), "draws": n, "cell_probability": float(pcell[j]),
+                 "p": float(pv[j]), "preimage": [float(xa[j]), float(xb[j])]}
+    return worst, int(len(vals))
